@@ -41,6 +41,9 @@ def run(chk, repo):
     from ..records import Layouts
     chk.rule("C01-R5", "metadata pass: chunk offsets advance by the bytes actually read, for every records_per_chunk (C06-Q5)", 4)
     chk.attempt(metadata_offsets, chk, repo, Layouts(repo))
+    from .c01 import chunk_sizes_spec
+    chk.rule("C01-R8", "metadata pass: the requests add up to the header's record count for every records_per_chunk (C06-Q6)", 2)
+    chk.attempt(chunk_sizes_spec, chk, repo)
     chk.count("functions", len(op.reach))
 
 
